@@ -11,6 +11,7 @@ Together with `merge_mono` / `weakAssign_mono` (Props/C15, Props/C15Mono) this m
 -/
 import Argot.Model.EGraphClone
 import Argot.Proofs.EGraphOrder
+import Argot.Props.C15Mono
 
 namespace Argot.EGraph
 namespace EGraph
@@ -20,9 +21,6 @@ def Succ (g : EGraph) (a b : Node) : Prop := b ∈ g.succs a
 
 /-- reachable from the roots along edges of any kind -/
 def ReachR (g : EGraph) (roots : List Node) (n : Node) : Prop := Closure.Reach g.Succ roots n
-
-theorem mem_succs {g : EGraph} {a b : Node} : b ∈ g.succs a ↔ b ∈ g.dom ∧ (g.fl a b).any = true := by
-  simp [succs]
 
 private theorem poss_iff (g : EGraph) (k k' : Node) :
     Closure.Poss (fun a : Node => a) g.succs k k' ↔ g.Succ k k' := by
@@ -256,6 +254,65 @@ theorem cloneReachable_drops (g : EGraph) (roots : List Node) (n : Node) (h : ¬
   have h1 : n ∉ g.reachFrom roots := fun x => h ((mem_reachFrom_iff g roots n).1 x)
   show (decide (n ∈ g.reachFrom roots) && _) = false
   simp [h1]
+
+/-! ### the function summary as a function of the return-block end states
+
+`Resummarize`: `returnResult := empty; for each block ending in Return: returnResult.Merge(blockEnd)` … then
+`returnResult.CloneReachable(formals ++ freevars ++ returnNodes)`.  (The `WeakAssign` of the returned values
+to the return nodes in between is `weakAssign_mono` of Props/C15Mono and keeps its hypotheses; `simplifySummary`
+afterwards is not modelled.) -/
+
+/-- join of the return-block end states, then the trim -/
+def summaryOf (I : Node → Nat) (roots : List Node) (ends : List EGraph) : EGraph :=
+  (ends.foldl (merge I) EGraph.empty).cloneReachable roots
+
+/-- `CloneReachable` as a monotone operation in the sense used for block transfer functions -/
+theorem cloneReachable_monoOp (I : Node → Nat) (roots : List Node) :
+    MonoOp I (fun _ => True) (fun g => g.cloneReachable roots) :=
+  ⟨fun _ hg _ => cloneReachable_preserves_wf hg roots, fun _ _ _ => trivial,
+   fun _ _ _ _ _ _ hle => cloneReachable_mono hle (fun _ hr => hr)⟩
+
+private theorem foldl_merge_mono {I : Node → Nat} (hI : ∀ n, I n ≤ 2) :
+    ∀ (ps : List (EGraph × EGraph)), (∀ p ∈ ps, WF I p.1 ∧ WF I p.2 ∧ LE p.1 p.2) →
+    ∀ acc acc', WF I acc → WF I acc' → LE acc acc' →
+      WF I ((ps.map Prod.fst).foldl (merge I) acc) ∧ WF I ((ps.map Prod.snd).foldl (merge I) acc') ∧
+      LE ((ps.map Prod.fst).foldl (merge I) acc) ((ps.map Prod.snd).foldl (merge I) acc') := by
+  intro ps
+  induction ps with
+  | nil => intro _ acc acc' ha ha' hle; exact ⟨ha, ha', hle⟩
+  | cons p ps ih =>
+    intro h acc acc' ha ha' hle
+    obtain ⟨he, he', hl⟩ := h p (List.mem_cons_self ..)
+    exact ih (fun q hq => h q (List.mem_cons_of_mem _ hq)) _ _ (merge_preserves_wf hI ha he)
+      (merge_preserves_wf hI ha' he') (merge_mono_le hI ha ha' he he' hle hl)
+
+/-- **The summary is monotone in the block-end states**: if every return block's end state grows (in the
+analysis' order; `ps` pairs the smaller with the larger state of each return block) the trimmed summary grows —
+the step that makes the whole-program fixpoint over summaries a monotone iteration. -/
+theorem summaryOf_mono {I : Node → Nat} (hI : ∀ n, I n ≤ 2) (roots : List Node) (ps : List (EGraph × EGraph))
+    (h : ∀ p ∈ ps, WF I p.1 ∧ WF I p.2 ∧ LE p.1 p.2) :
+    LE (summaryOf I roots (ps.map Prod.fst)) (summaryOf I roots (ps.map Prod.snd)) ∧
+    WF I (summaryOf I roots (ps.map Prod.fst)) ∧ WF I (summaryOf I roots (ps.map Prod.snd)) := by
+  obtain ⟨h1, h2, h3⟩ := foldl_merge_mono hI ps h _ _ (wf_empty I) (wf_empty I) (LE.refl _)
+  exact ⟨cloneReachable_mono h3 (fun _ hr => hr), cloneReachable_preserves_wf h1 roots,
+    cloneReachable_preserves_wf h2 roots⟩
+
+/-- the summary does not depend on the order in which the return blocks are merged (Go ranges over the
+`blockEnd` map): swapping two neighbours gives graphs that are equal as the Go maps see them -/
+theorem summaryOf_swap {I : Node → Nat} (hI : ∀ n, I n ≤ 2) (roots : List Node) {a b : EGraph}
+    (ha : WF I a) (hb : WF I b) :
+    LE (summaryOf I roots [a, b]) (summaryOf I roots [b, a]) := by
+  have e : ∀ x y : EGraph, WF I x → WF I y →
+      LE (merge I (merge I EGraph.empty x) y) (merge I (merge I EGraph.empty y) x) := by
+    intro x y hx hy
+    have w0 := wf_empty I
+    have wx := merge_preserves_wf hI w0 hx
+    have wy := merge_preserves_wf hI w0 hy
+    refine merge_least_le hI wx hy (merge_preserves_wf hI wy hx) ?_ ?_
+    · refine merge_least_le hI w0 hx (merge_preserves_wf hI wy hx) ?_ (le_merge_right hI wy hx)
+      exact (le_merge_left hI w0 hy).trans (le_merge_left hI wy hx)
+    · exact (le_merge_right hI w0 hy).trans (le_merge_left hI wy hx)
+  exact cloneReachable_mono (e a b ha hb) (fun _ hr => hr)
 
 /-! ### non-vacuity: a 4-node graph, node 3 unreachable from root 0 -/
 
